@@ -112,6 +112,16 @@ func (env *SpecEnv) ghostCall(name string, x *ast.CallExpr) (Val, bool) {
 		return intVal(vc.heapIn(env.st, "$nextArr", SInt)), true
 	case "tracelen":
 		return intVal(vc.heapIn(env.st, "$TraceLen", SInt)), true
+	case "ghost":
+		// ghost("name"): a named ghost integer that every non-pure call may change; what a particular call does to it
+		// is said by that call's `assumes` clauses (e.g. "the last Next ended in a recoverable parse error")
+		if lit, ok := x.Args[0].(*ast.BasicLit); ok {
+			return intVal(vc.heapIn(env.st, "$Ghost:"+strings.Trim(lit.Value, "\""), SInt)), true
+		}
+	case "fuel":
+		// fuel(): ghost measure - the number of non-error tokens the lexer/parser driving this function has not yet
+		// handed out. Never negative, never grows; which calls make it strictly smaller is said by `assumes` clauses.
+		return intVal(vc.heapIn(env.st, "$Fuel", SInt)), true
 	case "ev":
 		// ev(i): event code at trace position i; evarg(i, j): j-th argument
 		i := env.eval(x.Args[0]).C[0]
@@ -792,6 +802,9 @@ func (vc *VC) applyContract(x ast.Node, con *Contract, full string, sig *types.S
 			vc.havocModifies(envPre, m, st)
 		}
 	}
+	if !con.Pure && !con.NoFrame {
+		vc.fuelStep(st)
+	}
 	// allocation may advance
 	if !con.Pure {
 		n := vc.nextArr(st)
@@ -905,7 +918,30 @@ func (vc *VC) applyContract(x ast.Node, con *Contract, full string, sig *types.S
 		t := vc.specAssumable(envPost, e.Expr)
 		vc.assumeAt(st, t)
 	}
+	for _, e := range con.Assumes {
+		vc.assumeAt(st, vc.specAssumable(envPost, e.Expr))
+	}
 	return res
+}
+
+// fuelStep: a call may consume tokens (the ghost measure never grows and never becomes negative).
+func (vc *VC) fuelStep(st *State) {
+	for name := range st.heaps {
+		if strings.HasPrefix(name, "$Ghost:") {
+			st.heaps[name] = vc.fresh(name, SInt)
+		}
+	}
+	for name := range vc.heapSorts {
+		if strings.HasPrefix(name, "$Ghost:") {
+			if _, ok := st.heaps[name]; !ok {
+				st.heaps[name] = vc.fresh(name, SInt)
+			}
+		}
+	}
+	h := vc.heap(st, "$Fuel", SInt)
+	nh := vc.fresh("$Fuel", SInt)
+	vc.assume(And(Le(Zero, nh), Le(nh, h)))
+	st.heaps["$Fuel"] = nh
 }
 
 func traceEventName(con *Contract, full string) string {
